@@ -137,13 +137,16 @@ CLAIMED = {
            "generation), template rendering, goimports formatting; a failing run that dumps unformatted text is allowed by the property and not exercised."),
  },
  "C12": {
-  "technique": "Lean 4 proof (identity theorem over a full executable model of the analyser) + model/implementation correspondence",
+  "technique": "Lean 4 proof (identity and no-panic theorems over a full executable model of the analyser) + model/implementation correspondence",
   "text": ("Proof: `self_identity` shows for EVERY well-formed document, fuel and iteration order that a normal return of the modelled "
            "analyser on (s, s) is the empty report (induction on fuel, Hoare triples per Go function); re-serialisation lemmas for the lists read "
            "as sets; the five crash witnesses of the pinned tree are theorems about the repaired model. The model is tied to "
            "cmd/swagger/commands/diff on every run: tables regenerated from live values, and the compiled model is run against diff.Compare "
-           "on ~1400 (quick) / ~18000 (thorough) generated self, re-serialised and edited pairs; totality (no panic on valid pairs) is decided "
-           "by that sweep on the real code, not by a theorem yet - labelled partial."),
+           "on ~1400 (quick) / ~18000 (thorough) generated self, re-serialised and edited pairs. `total_no_panic` proves the no-crash half: "
+           "for EVERY pair of valid documents (every $ref at every depth resolves, every array parameter/header level has items), every fuel and "
+           "iteration order, no unguarded dereference of the analyser is reached (induction on the fuel through $ref cycles, allOf, items, "
+           "properties; both hypotheses shown necessary); the hypothesis is tied to the reference validator on a sample of each run. "
+           "Termination ('never loops') is not proved - the model recurses on fuel; the real recursion guard is exercised by the sweep - labelled partial."),
   "note": DIFF_NOTE,
  },
  "C13": {
